@@ -677,6 +677,17 @@ func genC05(seed, index uint64, tier string) *Plan {
 		cs.RawFiles["templates/z-reader.yaml"] = "apiVersion: v1\nkind: ConfigMap\nmetadata:\n  name: c05-reader-z\ndata:\n  seen: {{ .Values.computed | default \"unset\" | quote }}\n"
 		cs.RawFiles["templates/sub/q-reader.yaml"] = "apiVersion: v1\nkind: ConfigMap\nmetadata:\n  name: c05-reader-q\ndata:\n  seen: {{ .Values.computed | default \"unset\" | quote }}\n"
 	}
+	if g.Chance(0.3) {
+		// several hooks that share kind and metadata.name but live in different files (one Job per event is a common layout):
+		// their order in the release must be fixed as well
+		hk := func(ev, w string) string {
+			return "apiVersion: batch/v1\nkind: Job\nmetadata:\n  name: {{ .Release.Name }}-db-migrate\n  annotations:\n    \"helm.sh/hook\": " + ev + "\n    \"helm.sh/hook-weight\": \"" + w + "\"\nspec:\n  template:\n    spec:\n      restartPolicy: Never\n      containers:\n      - name: m\n        image: \"migrate:" + ev + "\"\n"
+		}
+		cs.RawFiles["templates/migrate-install.yaml"] = hk("pre-install", "0")
+		cs.RawFiles["templates/migrate-upgrade.yaml"] = hk("pre-upgrade", "0")
+		cs.RawFiles["templates/jobs/migrate-rollback.yaml"] = hk("pre-rollback", "0")
+		cs.RawFiles["templates/a-migrate-both.yaml"] = hk("post-install,post-upgrade", "0")
+	}
 	if g.Chance(0.08) {
 		// two templates fail: the reported error must always be the same one
 		cs.RawFiles["templates/fail-b.yaml"] = "{{ fail \"failure B\" }}\n"
